@@ -37,6 +37,13 @@ struct reb_treecell;
 int reb_get_rootbox_for_particle(const struct reb_simulation* const r, struct reb_particle pt);
 
 /**
+ * @brief Puts a particle that already belongs to the simulation back at the end of the particle array.
+ * @details Used by the tree update after it took a particle that left its cell out of the array. In contrast to
+ * reb_simulation_add() this does not run the bookkeeping of MERCURIUS and TRACE for particles that are new.
+ */
+void reb_simulation_reinsert_particle(struct reb_simulation* const r, struct reb_particle pt);
+
+/**
  * @brief Returns 1 if a testparticle of type 0 has a finite mass.
  */
 int reb_particle_check_testparticles(struct reb_simulation* const r);
